@@ -149,6 +149,10 @@ class ExprCanon(ast.NodeTransformer):
             g = node.args[0]
             cls = ast.ListComp if f.id == "list" else ast.SetComp  # a frozenset built once is read like the set (membership, iteration)
             return ast.copy_location(cls(elt=g.elt, generators=g.generators), node)
+        # dict({..}) / list([..]) / set({..}): a fresh copy of a display is the display
+        if isinstance(f, ast.Name) and f.id not in self.bound and len(node.args) == 1 and not node.keywords and (
+                (f.id == "dict" and isinstance(node.args[0], ast.Dict)) or (f.id == "list" and isinstance(node.args[0], ast.List)) or (f.id == "set" and isinstance(node.args[0], ast.Set))):
+            return node.args[0]
         # consumers that only iterate their argument: a list comprehension there is read like a generator expression
         if len(node.args) == 1 and not node.keywords and isinstance(node.args[0], ast.ListComp) and (
                 (isinstance(f, ast.Attribute) and f.attr == "join") or
@@ -290,7 +294,7 @@ def canon_text(text: str) -> str:
     if not isinstance(text, str) or not text:
         return text
     consts = pinned()["consts"]
-    if not any(k in text for k in consts) and not any(tok in text for tok in (" if ", ".union(", ".difference(", ".intersection(", ".keys()", "isinstance(", " + ", "set(", "list(", "frozenset(", "[")) and "(" not in text:
+    if not any(k in text for k in consts) and not any(tok in text for tok in (" if ", ".union(", ".difference(", ".intersection(", ".keys()", "isinstance(", " + ", "set(", "list(", "frozenset(", "dict(", "[")) and "(" not in text:
         return text
     # pseudo calls of the interpreter (<elem>(it), <pre>(e, n, k), <setitem>(d, k, v), <setattr>(o, a, v)) are not Python:
     # they are spelled as identifiers while the text is parsed and restored afterwards
